@@ -6,6 +6,7 @@ cd /repo || exit 9
 git diff --quiet || { echo "/repo has local changes"; exit 9; }
 git apply "$patch" || { echo "patch does not apply"; exit 9; }
 cd /verif
+export VERIF_EVIDENCE_DIR=/verif/out/seeded_evidence   # never overwrite the committed evidence with a seeded run
 for c in "$@"; do
   ./check "$c" --tier quick > "/tmp/seedrun_$c.log" 2>&1
   echo "check $c exit=$? :: $(grep -c '^VIOLATION' /tmp/seedrun_$c.log) violation lines :: $(tail -1 /tmp/seedrun_$c.log | cut -c1-200)"
